@@ -344,7 +344,8 @@ META["C04"] = {
     "plain, keyword-only, *args, **kw) and the four comprehension forms push every Name of every "
     "`for` target before the sub-tree is visited (precondition `binders_on` of generic_visit, "
     "proved at each call), and each leaves the stack as it found it (visitor hypothesis, "
-    "re-established by every method); a dispatch obligation per node class shows that no binder "
+    "re-established by every method); visit_Name returns the very node whenever the name is on the "
+    "stack; a dispatch obligation per node class shows that no binder "
     "class reaches generic_visit without its own visit method (class-level aliases are read from "
     "the current source). The designed refusal is proved too: check_ast raises ValueError iff some "
     "Constant holds a non-transportable value. BOUNDED: what is put in place of a free name "
@@ -357,14 +358,15 @@ META["C04"] = {
     "deleted / mutated and the emitted lambda is evaluated, type-exactly, against what the callable "
     "returned at the call.",
     "level_note": "Proved: the binder discipline of the capture visitor and check_ast. Bounded: "
-    "the value that replaces a captured name, and that visit_Name honours is_arg (its body is "
-    "reflection-heavy and outside engine P). Trusted: NodeTransformer dispatch model, ast.walk "
+    "the value that replaces a captured name. visit_Name is proved to return the node itself "
+    "whenever is_arg holds (its reflective neighbours _parse_source_for_lambda / _resolve_helper "
+    "are assumed contracts). Trusted: NodeTransformer dispatch model, ast.walk "
     "yields well-formed nodes, nested generators flatten; enum members are not covered.",
     "technique": "sidecar contracts on _rewrite_captured_vars (is_arg, visit_Lambda, the comprehension visitors, class dispatch) and check_ast discharged with z3 (visitor hypothesis, list lemmas); by-value clause by bounded contract check on generated source modules, oracle = the callable itself at call time (labelled stand-in)",
     "p_keys": True,
     "explanation": "scoping discipline and the refusal proved; replacement values bounded",
     "assumptions": ["one post-call history (everything rebound/deleted/mutated)",
-                    "visit_Name returns the node unchanged when is_arg holds (bounded)"],
+                    "_parse_source_for_lambda, _resolve_helper: assumed contracts (result shape, ignore stack untouched)"],
 }
 
 META["C05"] = {
